@@ -237,6 +237,15 @@ Example ex_multi_timeout :
        (mkObs [mkOC OPending 0 0 true (Some 3000000) 0 None; mkOC OPending 0 0 true (Some 3000000) 1 None]
               [(GOk [OSuccess 70; OSuccess 71] 4000000, [0; 1]%nat)] [] [true; true]) = false.
 Proof. split; vm_compute; reflexivity. Qed.
+(* an un-timed multi_call whose callee drops the port / is killed: that slot is SenderError; the
+   oracle rejects a Timeout slot when no timeout was given *)
+Example ex_multi_untimed :
+  o_groups (observe 2 [OMulti [0; 1]%nat None; OSettle; OAct 0 (mkPlan [] ADrop); OKill 1])
+  = [(GOk [OSenderError; OSenderError] 0, [0; 1]%nat)]
+  /\ check_C09 2 [OMulti [0; 1]%nat None; OSettle; OAct 0 (mkPlan [] ADrop); OKill 1]
+       (mkObs [mkOC OPending 0 0 true None 0 None; mkOC OPending 0 0 true None 1 None]
+              [(GOk [OTimeout; OSenderError] 0, [0; 1]%nat)] [] [true; false]) = false.
+Proof. split; vm_compute; reflexivity. Qed.
 Example ex_forward :
   o_fwds (observe 2 [OFwd 0 1 None; OSettle; OAct 0 (mkPlan [] (AReply 60))]) = [(0%nat, 60, 0, true)]
   /\ o_fwds (observe 2 [OFwd 0 1 None; OSettle; OAct 0 (mkPlan [] ADrop)]) = [].
